@@ -1,16 +1,426 @@
+// C08 harness: generated documents -> dbc.Write -> dbc.Parse (both number modes) and accepted
+// texts -> dbc.Parse -> dbc.Write -> dbc.Parse, with the document equivalence of the property
+// evaluated on the implementation's own results (PROPFAIL lines in the summary), and one record
+// per text for the OCaml model driver (lexer tokens, parse outcome, document, writer text).
+//
+//	c08 run    -seed N -tier quick|thorough -out DIR
+//	c08 replay -file replay.json -out DIR           (one case, verbose)
 package main
 
 import (
 	"bufio"
+	"encoding/json"
+	"flag"
+	"fmt"
 	"os"
+	"path/filepath"
+	"sort"
+	"strings"
 
 	"verif/c08/dbccase"
+
+	"github.com/squadracorsepolito/acmelib/dbc"
 )
 
+type failure struct {
+	Sig    string    `json:"signature"`
+	Detail string    `json:"detail"`
+	Stream string    `json:"stream"`
+	Hex    bool      `json:"hex"`
+	Text   string    `json:"text,omitempty"`     // accepted-text stream: the input text
+	Doc    *dbc.File `json:"document,omitempty"` // document stream: the generated document
+	size   int
+}
+
+type state struct {
+	w        *bufio.Writer
+	nextID   int
+	hist     map[string]int
+	fails    map[string]*failure
+	nontriv  map[string]bool
+	samples  []string
+	accepted int
+	texts    int
+}
+
+var sectionKeywords = map[string]bool{"VERSION": true, "NS_": true, "BS_": true, "BU_": true, "VAL_TABLE_": true, "BO_": true,
+	"BO_TX_BU_": true, "EV_": true, "ENVVAR_DATA_": true, "SGTYPE_": true, "CM_": true, "BA_DEF_": true, "BA_DEF_DEF_": true,
+	"BA_": true, "VAL_": true, "SIG_GROUP_": true, "SIG_VALTYPE_": true, "SG_MUL_VAL_": true}
+
+// sectionAt names the section keyword that starts the line of (or precedes) the error position.
+func sectionAt(text []byte, line, col int) string {
+	last := "start"
+	for _, t := range dbc.VerifScanAll(text) {
+		if t.Line > line || (t.Line == line && t.Col > col) {
+			break
+		}
+		if t.Kind == 8 && sectionKeywords[t.Value] && t.Col == 1 {
+			last = t.Value
+		}
+	}
+	return last
+}
+
+func (st *state) fail(f *failure) {
+	if old, ok := st.fails[f.Sig]; !ok || f.size < old.size {
+		st.fails[f.Sig] = f
+	}
+}
+
+func nonEmptySections(f *dbc.File) int {
+	p := dbccase.Project(f)
+	n := 0
+	for _, s := range dbccase.Sections {
+		if v := p[s]; v != "0" && v != "none" && v != "s0" {
+			n++
+		}
+	}
+	return n
+}
+
+// checkDoc: property part 1 on one document and one number mode. Returns the writer's text.
+func (st *state) checkDoc(doc *dbc.File, hex bool, emit bool) []byte {
+	st.hist[fmt.Sprintf("doc-hex%v", hex)]++
+	text, pan := dbccase.WriteSafe(doc, hex)
+	if pan != "" {
+		st.fail(&failure{Sig: "c08-panic-write", Detail: pan, Stream: "doc", Hex: hex, Doc: doc, size: 0})
+		return nil
+	}
+	o := dbccase.ParseSafe("doc.dbc", text, hex)
+	switch o.Class {
+	case "panic":
+		st.fail(&failure{Sig: "c08-panic-parse", Detail: o.Panic, Stream: "doc", Hex: hex, Doc: doc, Text: string(text), size: len(text)})
+	case "syn", "other":
+		sec := "other"
+		if o.Class == "syn" {
+			sec = sectionAt(text, o.Line, o.Col)
+		}
+		st.fail(&failure{Sig: "c08-write-parse-rejected-" + sec, Detail: "the parser rejects the writer's text: " + o.Err.Error(),
+			Stream: "doc", Hex: hex, Doc: doc, Text: string(text), size: len(text)})
+	case "ok":
+		if d := dbccase.Equivalent(doc, o.File); len(d) > 0 {
+			st.fail(&failure{Sig: "c08-write-parse-differs-" + strings.Join(d, "+"), Detail: "parse(write(doc)) is not equivalent to doc in section(s) " + strings.Join(d, ","),
+				Stream: "doc", Hex: hex, Doc: doc, Text: string(text), size: len(text)})
+		}
+		if nonEmptySections(doc) >= 5 {
+			st.nontriv[string(text)] = true
+		}
+	}
+	if emit {
+		st.emit("doc", hex, text, o)
+	}
+	return text
+}
+
+// checkText: property part 2 on one text (any text; only accepted ones are subject to it).
+func (st *state) checkText(stream string, text []byte, hex bool, emit bool) {
+	st.hist[stream]++
+	st.texts++
+	o := dbccase.ParseSafe("text.dbc", text, hex)
+	if emit {
+		st.emit(stream, hex, text, o)
+	}
+	switch o.Class {
+	case "panic":
+		st.fail(&failure{Sig: "c08-panic-parse", Detail: o.Panic, Stream: stream, Hex: hex, Text: string(text), size: len(text)})
+		return
+	case "ok":
+	default:
+		return
+	}
+	st.accepted++
+	t2, pan := dbccase.WriteSafe(o.File, hex)
+	if pan != "" {
+		st.fail(&failure{Sig: "c08-panic-write", Detail: pan, Stream: stream, Hex: hex, Text: string(text), size: len(text)})
+		return
+	}
+	o2 := dbccase.ParseSafe("text2.dbc", t2, hex)
+	switch o2.Class {
+	case "panic":
+		st.fail(&failure{Sig: "c08-panic-parse", Detail: o2.Panic, Stream: stream, Hex: hex, Text: string(text), size: len(text)})
+	case "syn", "other":
+		sec := "other"
+		if o2.Class == "syn" {
+			sec = sectionAt(t2, o2.Line, o2.Col)
+		}
+		st.fail(&failure{Sig: "c08-pwp-rejected-" + sec, Detail: "parse accepts the text, but rejects write(parse(text)): " + o2.Err.Error(),
+			Stream: stream, Hex: hex, Text: string(text), size: len(text)})
+	case "ok":
+		if d := dbccase.Equivalent(o.File, o2.File); len(d) > 0 {
+			st.fail(&failure{Sig: "c08-pwp-differs-" + strings.Join(d, "+"), Detail: "parse(write(parse(text))) differs from parse(text) in section(s) " + strings.Join(d, ","),
+				Stream: stream, Hex: hex, Text: string(text), size: len(text)})
+		}
+		if len(dbc.VerifScanAll(text)) >= 20 {
+			st.nontriv[string(text)] = true
+		}
+	}
+}
+
+func (st *state) emit(stream string, hex bool, text []byte, o dbccase.Outcome) {
+	dbccase.EmitCase(st.w, st.nextID, stream, hex, text, o, nil)
+	if len(st.samples) < 4 && st.nextID%97 == 3 {
+		s := string(text)
+		if len(s) > 300 {
+			s = s[:300] + "..."
+		}
+		st.samples = append(st.samples, fmt.Sprintf("%s hex=%v: %q", stream, hex, s))
+	}
+	st.nextID++
+}
+
+// ---- token-level mutations of a text ----
+func mutate(r *rng, text []byte) []byte {
+	toks := dbc.VerifScanAll(text)
+	if len(toks) < 3 {
+		return text
+	}
+	// raw pieces: re-render tokens as they were
+	piece := func(t dbc.VerifToken) string {
+		if t.Kind == 7 {
+			return `"` + t.Value + `"`
+		}
+		return t.Value
+	}
+	n := len(toks) - 1 // without the final eof
+	i := r.n(n)
+	for toks[i].Kind == 2 && r.chance(90) {
+		i = r.n(n)
+	}
+	var b strings.Builder
+	repl := []string{"0", "1", "-1", "1.5", "4294967296", "0x1F", "1e3", "x", "M", "m3", "m3M", `"s"`, `""`, ";", ":", ",", "|", "@", "+", "-", "(", ")",
+		"[", "]", "BO_", "SG_", "BU_", "EV_", "INT", "STRING", "1-2", "Vector__XXX", "\x00", "\t", "\n", "#"}
+	op := r.n(4)
+	for j := 0; j < n; j++ {
+		switch {
+		case j == i && op == 0: // delete
+		case j == i && op == 1: // duplicate
+			b.WriteString(piece(toks[j]))
+			b.WriteString(" ")
+			b.WriteString(piece(toks[j]))
+		case j == i && op == 2: // replace
+			b.WriteString(repl[r.n(len(repl))])
+		case j == i && op == 3 && j+2 < n: // swap with the next non-space token
+			b.WriteString(piece(toks[j+2]))
+			b.WriteString(piece(toks[j+1]))
+			b.WriteString(piece(toks[j]))
+			j += 2
+		default:
+			b.WriteString(piece(toks[j]))
+		}
+	}
+	return []byte(b.String())
+}
+
+func run(seed uint64, tier, outDir string) error {
+	if err := os.MkdirAll(outDir, 0o755); err != nil {
+		return err
+	}
+	cf, err := os.Create(filepath.Join(outDir, "cases.txt"))
+	if err != nil {
+		return err
+	}
+	defer cf.Close()
+	st := &state{w: bufio.NewWriterSize(cf, 1<<20), hist: map[string]int{}, fails: map[string]*failure{}, nontriv: map[string]bool{}}
+	dbccase.Tables(st.w)
+	r := &rng{s: seed}
+
+	nDocs, nMut, nSpaced, entries := 260, 500, 120, 2
+	emitEvery := 1
+	if tier == "thorough" {
+		nDocs, nMut, nSpaced, entries = 12000, 20000, 4000, 3
+		emitEvery = 4
+	}
+
+	// (1) one document per single section, then random section subsets, both number modes
+	var docTexts [][]byte
+	for i := 0; i < 19+nDocs; i++ {
+		var mask uint32
+		switch {
+		case i < 19:
+			mask = 1<<uint(i) | 1<<3
+		case i%3 == 0:
+			mask = 0x7FFFF
+		default:
+			mask = uint32(r.next()) & 0x7FFFF
+		}
+		doc := r.file(mask, entries)
+		for _, hex := range []bool{false, true} {
+			t := st.checkDoc(doc, hex, i%emitEvery == 0)
+			if t != nil && !hex {
+				docTexts = append(docTexts, t)
+			}
+		}
+	}
+
+	// (2) accepted-text stream: testdata, writer outputs, their mutations and re-spacings
+	repo := os.Getenv("VERIF_REPO")
+	if repo == "" {
+		repo = "/repo"
+	}
+	var seeds [][]byte
+	files, _ := filepath.Glob(filepath.Join(repo, "testdata", "*.dbc"))
+	sort.Strings(files)
+	for _, fn := range files {
+		b, err := os.ReadFile(fn)
+		if err != nil {
+			return err
+		}
+		seeds = append(seeds, b)
+		st.checkText("testdata", b, false, true)
+		st.checkText("testdata", b, true, true)
+	}
+	if len(seeds) == 0 {
+		return fmt.Errorf("no testdata under %s", repo)
+	}
+	for i := 0; i < len(docTexts) && i < 40; i++ {
+		seeds = append(seeds, docTexts[(i*7)%len(docTexts)])
+	}
+	hand := []string{
+		"VERSION \"\"\nNS_ :\nBS_:\nBU_:\n",
+		"BU_: A B\nBO_ 1 m: 8 A\n SG_ s : 0|8@1+ (1,0) [0|0] \"\" A\nBA_DEF_ \"x\" FLOAT 0 1e3;\nBA_DEF_DEF_ \"x\" 1e3;\nBA_ \"x\" 5e-1;\nBA_ \"x\" BO_ 1 2.5E+2;\n",
+		"BS_: 500 : 1 , 2 BU_: n\nVAL_TABLE_ t 1 \"a\" 0 \"b\" ;\nVAL_ 5 s 0 \"z\";VAL_ e 1 \"y\" ;",
+		"BU_:\nSG_MUL_VAL_ 1 a b 0-0, 1-4294967295 , 07-010;\nSIG_VALTYPE_ 1 s 2;SIG_GROUP_ 1 g 2 : a b c;\nBO_TX_BU_ 1 : A B;\n",
+		"BU_:\nBA_DEF_ SG_ \"h\" HEX 0 255;\nBA_DEF_DEF_ \"h\" 0x1F;\nBA_DEF_ \"e\" ENUM ;BA_DEF_ EV_ \"e2\" ENUM \"a\",\"b\";BA_DEF_ BU_ \"i\" INT -5 +5;\n",
+		"BU_:\nEV_ e : 1 [-1|1] \"u\" 0.5 7 DUMMY_NODE_VECTOR8003 A,B;\nENVVAR_DATA_ e : 4 ;\nSGTYPE_ t : 8@1 - (1,0) [0|1] \"u\" 0 , vt;\nSGTYPE_ 1 s : t;\n",
+		"BU_:\nCM_ \"g\";CM_ BU_ n \"x\";CM_ BO_ 1 \"y\";CM_ SG_ 1 s \"multi\nline\";CM_ EV_ e \"z\";\nINT HEX SG_ FLOAT\n",
+		"VERSION \"a\" NS_ : CM_ FILTER 5 \"x\" ; BS_: BU_: a\x00 trailing garbage",
+	}
+	for _, h := range hand {
+		seeds = append(seeds, []byte(h))
+		st.checkText("hand", []byte(h), false, true)
+		st.checkText("hand", []byte(h), true, true)
+	}
+	for i := 0; i < nMut; i++ {
+		base := seeds[r.n(len(seeds))]
+		m := mutate(r, base)
+		if r.chance(25) {
+			m = mutate(r, m)
+		}
+		st.checkText("mutation", m, r.chance(20), i%emitEvery == 0)
+	}
+	for i := 0; i < nSpaced; i++ {
+		base := seeds[r.n(len(seeds))]
+		st.checkText("respaced", r.respace(base), r.chance(20), i%emitEvery == 0)
+	}
+	if err := st.w.Flush(); err != nil {
+		return err
+	}
+
+	// summary + replay files
+	sf, err := os.Create(filepath.Join(outDir, "summary.txt"))
+	if err != nil {
+		return err
+	}
+	defer sf.Close()
+	total := 0
+	var hk []string
+	for k, v := range st.hist {
+		hk = append(hk, k)
+		total += v
+	}
+	sort.Strings(hk)
+	fmt.Fprintf(sf, "cases %d\nrecords %d\nnontrivial %d\ntexts %d\naccepted %d\n", total, st.nextID, len(st.nontriv), st.texts, st.accepted)
+	for _, k := range hk {
+		fmt.Fprintf(sf, "hist %s %d\n", k, st.hist[k])
+	}
+	for _, s := range st.samples {
+		fmt.Fprintf(sf, "SAMPLE %s\n", s)
+	}
+	var fk []string
+	for k := range st.fails {
+		fk = append(fk, k)
+	}
+	sort.Strings(fk)
+	for _, k := range fk {
+		f := st.fails[k]
+		name := "fail-" + sanitize(k) + ".json"
+		b, _ := json.MarshalIndent(f, "", " ")
+		if err := os.WriteFile(filepath.Join(outDir, name), b, 0o644); err != nil {
+			return err
+		}
+		fmt.Fprintf(sf, "PROPFAIL %s %s ## %s\n", k, name, strings.ReplaceAll(f.Detail, "\n", " "))
+	}
+	return nil
+}
+
+func sanitize(s string) string {
+	var b strings.Builder
+	for _, c := range s {
+		if c >= 'a' && c <= 'z' || c >= 'A' && c <= 'Z' || c >= '0' && c <= '9' || c == '-' || c == '_' || c == '+' {
+			b.WriteRune(c)
+		} else {
+			b.WriteByte('_')
+		}
+	}
+	return b.String()
+}
+
+func replay(file, outDir string) error {
+	b, err := os.ReadFile(file)
+	if err != nil {
+		return err
+	}
+	var wrap struct {
+		Replay failure `json:"replay"`
+	}
+	if err := json.Unmarshal(b, &wrap); err != nil {
+		return err
+	}
+	f := wrap.Replay
+	if f.Sig == "" { // a bare failure file
+		if err := json.Unmarshal(b, &f); err != nil {
+			return err
+		}
+	}
+	if err := os.MkdirAll(outDir, 0o755); err != nil {
+		return err
+	}
+	cf, err := os.Create(filepath.Join(outDir, "cases.txt"))
+	if err != nil {
+		return err
+	}
+	defer cf.Close()
+	st := &state{w: bufio.NewWriter(cf), hist: map[string]int{}, fails: map[string]*failure{}, nontriv: map[string]bool{}}
+	dbccase.Tables(st.w)
+	if f.Doc != nil {
+		t := st.checkDoc(f.Doc, f.Hex, true)
+		fmt.Printf("document written (hex=%v):\n%s\n", f.Hex, t)
+	} else {
+		st.checkText(f.Stream, []byte(f.Text), f.Hex, true)
+		fmt.Printf("text (hex=%v):\n%s\n", f.Hex, f.Text)
+	}
+	st.w.Flush()
+	if len(st.fails) == 0 {
+		fmt.Println("REPLAY: the property holds on this case")
+	}
+	for k, v := range st.fails {
+		fmt.Printf("REPLAY PROPFAIL %s ## %s\n", k, v.Detail)
+	}
+	return nil
+}
+
 func main() {
-	w := bufio.NewWriter(os.Stdout)
-	defer w.Flush()
-	dbccase.Tables(w)
-	text := []byte("VERSION \"x\"\nBU_: A B\nBO_ 1 m : 8 A\n SG_ s m1M : 0|8@1+ (1,0.5) [0|1e3] \"u\" A,B\n")
-	dbccase.EmitCase(w, 0, "demo", false, text, dbccase.ParseSafe("f.dbc", text, false), nil)
+	if len(os.Args) < 2 {
+		fmt.Fprintln(os.Stderr, "usage: c08 run|replay ...")
+		os.Exit(2)
+	}
+	fs := flag.NewFlagSet(os.Args[1], flag.ExitOnError)
+	seed := fs.Uint64("seed", 20260930, "")
+	tier := fs.String("tier", "quick", "")
+	out := fs.String("out", ".", "")
+	file := fs.String("file", "", "")
+	fs.Parse(os.Args[2:])
+	var err error
+	switch os.Args[1] {
+	case "run":
+		err = run(*seed, *tier, *out)
+	case "replay":
+		err = replay(*file, *out)
+	default:
+		err = fmt.Errorf("unknown command %s", os.Args[1])
+	}
+	if err != nil {
+		fmt.Fprintln(os.Stderr, "c08:", err)
+		os.Exit(1)
+	}
 }
